@@ -76,7 +76,7 @@ pub fn show_pairs(p: &Pairs) -> String {
 /// Interprets the tokens of an orswot case on up to four sets (see the model driver
 /// `run_orswot` in ocaml/core/modelrun.ml: both print the same text).
 pub fn interpret<S: SetApi>(toks: &[&str]) -> String {
-    let mut sets: Vec<S> = (0..4).map(|_| S::default()).collect();
+    let mut sets: Vec<S> = (0..8).map(|_| S::default()).collect();
     let mut cur = 0usize;
     let mut out: Vec<String> = Vec::new();
     let hx = |s: &str| u64::from_str_radix(s, 16).unwrap();
@@ -103,6 +103,10 @@ pub fn interpret<S: SetApi>(toks: &[&str]) -> String {
             ["p"] => {
                 let purged = sets[cur].purge_();
                 out.push(format!("p{}", show_pairs(&purged)));
+            },
+            ["C", j] => {
+                let other = sets[j.parse::<usize>().unwrap()].clone();
+                sets[cur] = other;
             },
             ["M", j] => {
                 let other = sets[j.parse::<usize>().unwrap()].clone();
